@@ -33,10 +33,10 @@ REQUIRED_CATEGORIES = ["fault_fired", "request_raised", "uri_omitted", "crash_re
                        "rejected_entry_refetched", "prefix_hit_intact", "parallel_fault", "orphan_thread_outlived_request"]
 
 S = lab.SCHEME
-A, B, C_ = S + "a", S + "b", S + "c"
+A, B, C_ = S + "a", lab.ALT_SCHEME + "b", S + "c"  # b is served by a second resource
 CPP = "postprocess=p:" + S + "c<<pp"
 AVAL = "validate=v:" + S + "a"
-BVALPP = "validate=v;postprocess=p:" + S + "b<<vp"
+BVALPP = "validate=v;postprocess=p:" + lab.ALT_SCHEME + "b<<vp"
 MISSING = S + "missing"
 LIMIT = 200_000
 
@@ -153,6 +153,7 @@ class Exec:
         except Exception as exc:  # noqa
             outcome = ("raised", exc)
         contacted = [e[1] for e in w.log[start:] if e[0] == "download"]
+        self.last_log_start = start
         return outcome, contacted
 
     def _recover(self, w):
@@ -167,7 +168,18 @@ class Exec:
         fired_sites = {(f[0], f[1]) for f in self.fired}
         # a remaining planned fault stays armed; its index counts calls made by the restarted process
         w2.install_plan({k: v for k, v in self.plan.items() if k not in fired_sites})
+        self.fault_log_start = 0
         return w2
+
+    def _fetched_elsewhere(self, w, name, upto):
+        """True if, since the fault plan was installed in this world and before log position `upto`, the object
+        was also fetched by a download that no fault hit (a duplicate of the URI in the same request, or a pool
+        thread that outlived the failed request)."""
+        entries = [e for e in w.log[self.fault_log_start:upto] if e[0] == "download" and e[1] == name]
+        dl_faulted = {f[1] for f in self.fired if f[0] == "dl" and f[3] == name}
+        ok = [e for e in entries if e[2] not in dl_faulted]
+        n_pp = sum(1 for f in self.fired if f[0] == "pp" and f[3] == name)
+        return len(ok) - n_pp > 0
 
     def _account_faults(self, request, new_faults, contacted, served, outcome):
         """update must_refetch / cached_intact from the faults that fired during `request`"""
@@ -208,6 +220,7 @@ class Exec:
                 self.cached_intact.add(parse(r)[0])
         # ---- the faulted request
         w.install_plan(self.plan)
+        self.fault_log_start = len(w.log)
         request = scen["request"]
         out, contacted = self._get(w, request)
         self.fired = list(w.fired)
@@ -273,6 +286,7 @@ class Exec:
             req = op[1]
             before_fired = len(wcur.fired)
             out, contacted = self._get(wcur, req)
+            log_start = self.last_log_start
             new_faults = list(wcur.fired[before_fired:])
             self.fired += new_faults
             if out[0] == "crash":
@@ -296,7 +310,11 @@ class Exec:
                 exp = expected(r)
                 if exp is not None and r not in served and not new_faults:
                     self.v("not served after failure", f"follow-up {req}: {r} exists remotely but was not returned")
-                if key in pending_before:
+                if key in pending_before and self._fetched_elsewhere(wcur, name, log_start):
+                    # another, unfaulted download of the same object ran since the failure (a duplicate of the
+                    # URI in the same request, or a pool thread that outlived the request): nothing is demanded
+                    self.must_refetch.discard(key)
+                elif key in pending_before:
                     # O3: the failed URI is fetched afresh on the next request
                     if name not in contacted:
                         self.v("failed uri not refetched", f"{r} failed before but the next request served it without contacting the resource")
@@ -352,7 +370,9 @@ def scenarios(tier):
                                 "request": req, "prefix": pre, "parallel": par, "allow_missing": allow,
                                 "universe": universe})
     small = [S + "s%d" % i for i in range(7)]
-    big = [("six", small[:6]), ("seven_pp", small[:3] + ["postprocess=p:" + small[3] + "<<pp"] + small[4:7])]
+    big = [("six", small[:6]), ("seven_pp", small[:3] + ["postprocess=p:" + small[3] + "<<pp"] + small[4:7]),
+           # the same URI twice in one request, in different chunks of the pool (positions 0 and 5)
+           ("dup7", small[:5] + [small[0]] + [small[6]])]
     for rn, req in big:
         for pn, pre in (("none", []), ("s5", [[small[5]]])):
             for allow in (True, False):
@@ -365,7 +385,7 @@ def with_missing(scen, pos):
     s = dict(scen)
     req = list(scen["request"])
     uri, name, pp, val = parse(req[pos])
-    req[pos] = req[pos].replace(S + name, S + "missing_" + name)
+    req[pos] = req[pos].replace("://" + name, "://missing_" + name)
     s["request"] = req
     s["name"] = scen["name"] + f"|notfound@{pos}"
     s["universe"] = sorted(set(scen["universe"]) | {req[pos]})
@@ -460,8 +480,17 @@ def run_unit(unit):
                 plan[(s2, n2)] = k2
                 for fu in ("retry", "reopen_retry"):
                     execute(plan, fu)
+    # the same URI in two chunks: both downloads run concurrently inside ONE request; a partial write of one
+    # of them must never be published by the other (needs two preemptions: good download finished writing ->
+    # failing download truncates and half-writes -> good download renames)
+    if scen["parallel"] and scen["name"].startswith("dup7") and not unit.get("notfound") and (
+            tier == "thorough" or (scen["allow_missing"] and not scen["prefix"])):
+        for n in (range(counts.get("dl", 0)) if tier == "thorough" else (0, 5)):
+            for fu in (("reopen_retry", "singles") if tier == "thorough" else ("reopen_retry",)):
+                explore(execute, {("dl", n): "raise_half"}, fu, 2, c)
     # parallel: interleave the orphaned pool threads with the follow-up (preemption bound 1)
-    if scen["parallel"] and len(scen["request"]) > 5:
+    nf_tags = scen["name"].count("notfound@")
+    if scen["parallel"] and len(scen["request"]) > 5 and nf_tags <= (0 if scen["name"].startswith("dup7") else 1):
         bound = 1 if tier == "quick" else 1
         plans = [p for p in single if next(iter(p.values())) in ("raise_before", "raise_half", "pp_raise_half")]
         if tier == "quick":
